@@ -472,9 +472,13 @@ where
 
 fn drive5(ctx: &mut Ctx, desc: &str, f: &dyn Fn(Option<u64>) -> Result<Out, String>) {
     elems::reset_all();
-    let cands = match catch(|| f(None)) {
-        Ok(Ok(o)) => o.cands,
-        _ => vec![],
+    let cands = if !ctx.prerun(desc, &format!("{desc};e=-")) {
+        vec![]
+    } else {
+        match catch(|| f(None)) {
+            Ok(Ok(o)) => o.cands,
+            _ => vec![],
+        }
     };
     ctx.case(&format!("{desc};e=-"), || f(None).map(|o| CaseInfo::new(false, format!("fault-free:{}", if o.cands.is_empty() { "no-drops" } else { "drops" }))));
     ctx.count("candidates", cands.len() as u64);
